@@ -20,6 +20,10 @@ SHARD = 24
 IMPL_TIMEOUT = 1500
 COQ_TIMEOUT = 1500
 MAXM, MAXR = 6, 6          # mappings / re-matches per mapping shipped to the model (the oracle sees all of them)
+# per-case CPU budget of harness/main.py (impl; the oracle gets 2x; x4 in the thorough tier).  Measured on the quick population (seed 0, 1832
+# generated cases incl. the 5-step histories and the >= 100-atom substrates): max 0.49 CPU-s in impl, 0.42 CPU-s in the oracle -- the default
+# leaves a margin of two orders of magnitude
+CASE_CPU_LIMIT = 150
 
 RULE = ("(template, substrate, direction, strategy, hydrogen mode) with template = centre or full ITS of a corpus reaction, a "
         "hand-made rule, or a synthetic ITS graph planted on a random host; non-trivial = at least one glued result and a "
@@ -60,7 +64,9 @@ ASSUMPTIONS = ["templates have typesGH 5-tuples on every node, no wildcard '*' a
                "orders equal) — true on every correspondence case (recomputed by the model, compared with constant 1)"]
 TESTED_NOT_PROVED = ["serialisation half: graph_to_smi (RDKit) on the two sides of every result is an oracle input of the state-machine model (model/C03_Reactor.v: the "
                      "string logic on top of it — None filter, reversal on the backward direction, smiles_list — is modelled, compared on scripted reads and proved, "
-                     "C03_smarts_direction); that RDKit writes the graph it is given is tested only: returned strings are re-parsed and compared with the substrate (oracle)",
+                     "C03_smarts_direction); that RDKit writes the graph it is given is tested only: returned strings are re-parsed, the substrate side is compared "
+                     "with the substrate (smi-a) and, for balanced templates, the two sides' element counts incl. hydrogen and total charge (smi-b); clause (c) is "
+                     "not judged on the strings",
                      "rule preparation in the default mode for templates WITH explicit hydrogen atoms (three-step _strip_explicit_h + typesGH refresh): proved only "
                      "that the rule is the template minus some explicit H atoms with all remaining atoms (up to hydrogen counts) and all bonds among them kept "
                      "(C03_synrule_default_skeleton) and that a kept atom's hydrogen count on a side = number of that side's bonds to the removed atoms "
@@ -616,7 +622,7 @@ def prepare(case):
             return [_valid_additive(base, rec.rule.rc.raw, mm) for mm in ms]
         ords = K.order_tables(rec, MAXM, MAXR, valid_of) if case.get("mode", "E") == "E" else []
         case["pre"] = {"host": _host_json(rec.host), "tpl": _its_json(rec.tpl), "calls": calls,
-                       "nmaps": len(rec.mappings), "nraw": len(rec.raw)}
+                       "nmaps": len(rec.mappings), "nraw": len(rec.raw), "nits": len(rec.its_list)}
         if any(t for row in ords for t in row):
             case["pre"]["ords"] = ords      # visiting orders of hydrogen-transfer groups that are not the sorted order
         if case.get("script"):
@@ -890,6 +896,27 @@ def _string_level(case, rec, inv, base):
                 f["key"] = base + ":smi-a"
             out.append(f)
             break
+    # clause (b) on the returned STRINGS (audit-A1, findings 1 / 2): when the template is balanced (no atom changes its element, hydrogen
+    # counts and charges sum to the same on both sides) the two sides of every returned reaction have the same element counts, hydrogens
+    # included, and the same total charge
+    tpl = rec.tpl
+    if all(d["typesGH"][0][0] == d["typesGH"][1][0] for _, d in tpl.nodes(data=True)) and K.totals(tpl) == (0, 0):
+        from collections import Counter
+        for s in rec.smarts[:200]:
+            try:
+                sides = []
+                for side in s.split(">>"):
+                    mh = Chem.AddHs(Chem.MolFromSmiles(side))
+                    sides.append((Counter(a.GetSymbol() for a in mh.GetAtoms()), sum(a.GetFormalCharge() for a in mh.GetAtoms())))
+            except Exception:
+                break              # unparsable strings are reported above
+            if len(sides) == 2 and sides[0] != sides[1]:
+                f = dict(clause="smi-b", detail="returned reaction %r is not balanced: %r / charge %d on one side, %r / charge %d on the other "
+                         "(the template is balanced)" % (s, dict(sides[0][0]), sides[0][1], dict(sides[1][0]), sides[1][1]))
+                if base:
+                    f["key"] = base + ":smi-b"
+                out.append(f)
+                break
     return out
 
 
@@ -933,6 +960,7 @@ def distribution(cases, obss):
              branch_overwrite=0, charge_changing_templates=0, hydrogen_changing_templates=0, skipped=0, explicit_h_stage=0,
              host_sizes={}, template_sizes={})
     d["kinds_api"] = {}
+    d["oracle_truncated_at_400_results"] = d["oracle_truncated_at_200_strings"] = 0
     for c0, o0 in zip(cases, obss):
         if c0.get("kind") in ("history", "api"):
             k = c0.get("family", c0.get("kind"))
@@ -966,6 +994,11 @@ def distribution(cases, obss):
                 d["branch_overwrite"] += g[1][2]
                 if g[2]:
                     d["explicit_h_stage"] += 1
+        # the oracle looks at the first 400 results / 200 strings of a run: how many runs have more (audit-A1, finding 3)
+        if pre.get("nits", 0) > 400:
+            d["oracle_truncated_at_400_results"] = d.get("oracle_truncated_at_400_results", 0) + 1
+        if pre.get("nits", 0) > 200:
+            d["oracle_truncated_at_200_strings"] = d.get("oracle_truncated_at_200_strings", 0) + 1
         tn = (pre.get("tpl") or [[], []])[0]
         if c.get("mode", "E") != "I" and pre.get("tpl"):
             k = "default_mode_end_to_end_theorem_applies" if K.default_tpl_ok([row[:3] for row in pre["tpl"][0]], pre["tpl"][1]) else "default_mode_template_outside_the_end_to_end_theorem"
